@@ -3,6 +3,7 @@
 package xmpp
 
 import (
+	"encoding/xml"
 	"fmt"
 	"strings"
 	"testing"
@@ -217,14 +218,14 @@ func c10body(first []string, maxLen int, prelude bool) func() {
 			switch op {
 			case "send-m":
 				m := stanza.Message{Attrs: stanza.Attrs{To: "peer@example.org", Id: fmt.Sprintf("m%d", i), Type: "chat"}, Body: fmt.Sprintf("body %d", i)}
-				l.accept(fmt.Sprintf(`<message type="chat" id="m%d" to="peer@example.org"><body>body %d</body></message>`, i, i), false)
+				l.accept(c10wire(m), false)
 				if err := s.cl.Send(m); err != nil {
 					vrt.Fail("C10|send-error", "%s: %v", hist, err)
 				}
 			case "send-mp":
 				// the same kind of stanza passed by pointer (both forms implement stanza.Packet)
 				m := &stanza.Message{Attrs: stanza.Attrs{To: "peer@example.org", Id: fmt.Sprintf("mp%d", i), Type: "chat"}, Body: fmt.Sprintf("ptr %d", i)}
-				l.accept(fmt.Sprintf(`<message type="chat" id="mp%d" to="peer@example.org"><body>ptr %d</body></message>`, i, i), false)
+				l.accept(c10wire(m), false)
 				if err := s.cl.Send(m); err != nil {
 					vrt.Fail("C10|send-error", "%s: %v", hist, err)
 				}
@@ -345,7 +346,7 @@ func c10conc(progs [][]string, ackH int) func() {
 				if op == "raw" {
 					mine = append(mine, fmt.Sprintf("<presence id='%s'><status>x</status></presence>", id))
 				} else {
-					mine = append(mine, fmt.Sprintf(`<message type="chat" id="%s" to="peer@example.org"><body>b</body></message>`, id))
+					mine = append(mine, c10wire(stanza.Message{Attrs: stanza.Attrs{To: "peer@example.org", Id: id, Type: "chat"}, Body: "b"}))
 				}
 			}
 			accepted = append(accepted, mine...)
@@ -393,6 +394,16 @@ func c10conc(progs [][]string, ackH int) func() {
 		}
 		vrt.Log("queue %d entries", len(q))
 	}
+}
+
+// c10wire is the serialization a Send of p puts on the wire (whatever attribute order and
+// quoting the encoder uses: the check is about holding and re-sending it, not about its shape).
+func c10wire(p interface{}) string {
+	b, err := xml.Marshal(p)
+	if err != nil {
+		return "marshal-error:" + err.Error()
+	}
+	return string(b)
 }
 
 func max0(n int) int {
